@@ -307,6 +307,12 @@ struct Walk {
                 nix::DataFrameDimension f; f = d;
                 std::string tgt = "-";
                 try { nix::DataFrame df(f.data()); tgt = ordof(df); } catch (...) { tgt = "-"; }
+                // every getter of a descriptor whose frame is gone has to fail cleanly (an exception; never a crash)
+                try { (void)f.label(); } catch (...) {}
+                try { (void)f.unit(0u); } catch (...) {}
+                try { (void)f.size(); } catch (...) {}
+                try { (void)f.columnIndex(); } catch (...) {}
+                try { (void)f.indexOf(0.0, nix::PositionMatch::GreaterOrEqual); } catch (...) {}
                 o += "frame:" + tgt; break; }
             default: o += "?";
             }
